@@ -25,6 +25,13 @@ front of its callbacks (own action lists, CONTINUE / INTERRUPT per callback).  A
 (`kind: plugins`) builds a protocol from the real stock plugins (mission, random trip, leader,
 follower), drives it through their public methods and compares, callback by callback, the requests
 the python-side handlers saw with the consequences interop returned.
+
+Spelling of the calls: a protocol is written against `IProvider` (and whatever drives a wrapper against
+`IEncapsulator`), so it may pass arguments by the parameter names those interfaces publish.  In half of the
+cases a share (0.25 / 0.5 / 1) of the protocol's provider calls — table protocol and the stock-plugin
+protocol's own calls alike — and/or of the callbacks handed to the wrappers is spelt with keywords (all by
+name, all by name in another order, first positional and the rest by name); the names are read off the
+interfaces' signatures with `inspect`, the same spelling is used in both legs, the model never sees it.
 """
 import copy
 import inspect
@@ -1142,6 +1149,9 @@ class C14(Check):
             "length (weight 0.5, in the memory half 2 of ~21); 40% of the cases with 1-3 handlers registered through "
             "create_dispatcher from the protocol's own initialize() (2/3) or at the first event (1/3), each with its own "
             "action list per callback, one of them answering INTERRUPT in 30% of the callbacks; "
+            "half of the cases spell a share (0.25/0.5/1) of the protocol's provider calls and/or (40%: 0.5/1) of the "
+            "callbacks handed to the wrapper with the parameter names IProvider / IEncapsulator publish (all by name, "
+            "reversed, first positional + rest by name; names read with inspect; same spelling in both legs); "
             "plus every public method of the three real extension classes on the interop-wrapped "
             "protocol; non-trivial = some callbacks issue 0 and others >= 3 requests of >= 2 consequence types. "
             "Plus 150 (thorough 3000) protocols built from the stock plugins created in initialize() or at the first timer "
